@@ -19,7 +19,7 @@ EXPLANATION = (
     "len(params) and append the object parameters of the same pure function; (J) the linear system is solve(A=J.H, "
     "B=-grad) with J = jac(fcn, (y_out, *params), idxs=[0]) at the *saved output*; (U) the pull-back re-evaluates fcn at "
     "the saved output inside useobjparams(<fresh differentiable copies>) under enable_grad and differentiates w.r.t. "
-    "exactly those copies; total sign is negative. NOT decided: the IFT identity numerically, independence from method.")
+    "exactly those copies; total sign is negative. (AC16) cotangent values never steer control flow; (LS-N) the normal-equation fallback of the inner solve is A^H A x = A^H b; NOT decided: the IFT identity numerically, independence from method.")
 ASSUMPTIONS = ["jac() returns the Jacobian operator (C17)", "solve() solves the linear system (C01/C02)"]
 
 RF = "xitorch/optimize/rootfinder.py"
